@@ -2,6 +2,7 @@
 from . import dispatcher
 from . import error
 from . import utils
+from .._compat import integer_types
 
 
 @dispatcher.register_for('PV')
@@ -21,5 +22,11 @@ def PV(rate, periods, payment, future=None, type=None):
     if rate == 0:
         return -payment * periods - future
     else:
-        rate_exp_periods = (1 + rate)**periods
+        growth = 1 + rate
+        if (isinstance(growth, integer_types) and isinstance(periods, integer_types) and
+                abs(growth) > 1 and periods > 0 and (abs(growth).bit_length() - 1) * periods >= 1024):
+            # an exact integer growth factor of at least 2**1024: beyond the range of XL numbers
+            # (and Python would spend unbounded time and memory on its digits)
+            return error.NUM
+        rate_exp_periods = growth**periods
         return (((1 - rate_exp_periods) / rate) * payment * (1 + rate * type) - future) / rate_exp_periods
